@@ -172,7 +172,8 @@ fn $name(e: End, code: Code, v: u64, out: &mut Outcome) {
             Some(Ok(x)) => {
                 out.cov.transitions += 1;
                 if x.0 != want.0 {
-                    bad(RKINDS[kind as usize], "read", "value", format!("dispatcher read {} but the direct method reads {}", x.0, want.0));
+                    let sym = if x.1 != want.1 { "value+position" } else { "value" };
+                    bad(RKINDS[kind as usize], "read", sym, format!("dispatcher read {} but the direct method reads {} (reader left at {}, the codeword ends at {})", x.0, want.0, x.1, want.1));
                 } else if x.1 != want.1 {
                     bad(RKINDS[kind as usize], "read", "position", format!("dispatcher left the reader at {} but the codeword ends at {}", x.1, want.1));
                 } else if x.2 != want.2 {
